@@ -409,7 +409,11 @@ class DictType(GenericType):
 	@override
 	def primary_type(self) -> Type:
 		"""Note: XXX value_typeをprimaryとするためoverride"""
-		return self.sub_types[1]
+		sub_types = self.sub_types
+		if len(sub_types) != 2:
+			raise Errors.InvalidRelation(self, 'dict requires 2 type arguments', len(sub_types))
+
+		return sub_types[1]
 
 
 @Meta.embed(Node)
